@@ -529,6 +529,8 @@ func runHScen(f []string) string {
 				r.Headers = map[string]string{"X-Verif": kind + ":200"}
 			case kind == "tmpl":
 				r.Templater = nopTemplater{fail: true}
+			case kind == "badreq": // http.NewRequest refuses the method: prepareRequest fails, no request is fired
+				r.Method = "B AD"
 			case kind == "pre":
 				r.Preprocessor = failPre{}
 			case strings.HasPrefix(kind, "pp"):
@@ -823,7 +825,7 @@ func genGuns(r *vh.Rand, tier string) []string {
 		out = append(out, "phout "+strings.Join(ph, ","))
 	}
 	// HTTP scenarios: every failing kind at every position of a 3-step scenario, then random ones
-	hkinds := []string{"reset", "trunc", "pp200", "pp500", "tmpl", "pre"}
+	hkinds := []string{"reset", "trunc", "pp200", "pp500", "tmpl", "pre", "badreq"}
 	names := []string{"a", "b2", "step three", "x.y"}
 	// what the step declares besides the field its sample is labelled with (HTTP: the request's tag,
 	// gRPC: the call's name): absent, equal to the label, shared by several steps, something else
@@ -923,6 +925,10 @@ func genGuns(r *vh.Rand, tier string) []string {
 	for _, o := range []string{"a", "w", "e", "v", "o", "p", "m", "z", "vaop", "wvmz"} {
 		out = append(out, fmt.Sprintf("gscen %s %s:st0,%s:qt5,%s:%s %s", vh.HexS("gs"), vh.HexS("a"), vh.HexS("b2"),
 			vh.HexS("x.y"), r.Pick([]string{"post0", "post14", "badpayload", "st13"}), o))
+	}
+	// a scenario that runs to its end (min_waiting_time is honoured only then)
+	for _, o := range []string{"m", "mz"} {
+		out = append(out, fmt.Sprintf("gscen %s %s:st0,%s:qt5,%s:st13 %s", vh.HexS("gs"), vh.HexS("a"), vh.HexS("b2"), vh.HexS("x.y"), o))
 	}
 	ng := 20
 	if tier == "thorough" {
